@@ -490,7 +490,25 @@ func TestC03_Delivery(t *testing.T) {
 	})
 }
 
+// histories with membership changes: what the server sends on the re-requested streams - also while the rebalance is still
+// completing - is delivered completely and in order (the engine compares every sent event with what the consumer got)
+func TestC03_RebalanceHistory(t *testing.T) {
+	w := hWeights{deliver: 44, ack: 24, save: 5, rebalance: 10, end: 3, transientOnly: true, absorbed: 10, maxVb: scale(4, 8), minOps: 1, maxOps: scale(50, 150)}
+	known := isKnown("C01", sigF1)
+	rapid.Check(t, func(rt *rapid.T) {
+		sc := genHistory(rt, w)
+		journal("C03", "c03rebhist", sc)
+		v, labels, _ := runHistory(&sc, known != nil, "C03")
+		journalDone()
+		if v != nil {
+			violation(rt, v.Prop, "c03rebhist", sc, "%s", v.Detail)
+		}
+		record("C03", sc, labels["delivered_while_rebalance_completes"], append(labelList(labels), "rebalance_histories")...)
+	})
+}
+
 func init() {
+	registerReplay("c03rebhist", histReplayer(func() bool { return false }, "C03"))
 	registerReplay("c03", func(raw json.RawMessage) string {
 		var sc c03Scenario
 		if err := json.Unmarshal(raw, &sc); err != nil {
